@@ -317,8 +317,14 @@ ATTRS = {
     "multi": [' a="1" b=\'2\' c=3 d', ' z="1" a="2" m="3"', ' width=100% a="50%" %', ' lang="en" xml:lang="en" id="i"', ' b==x %% c'],
     "entval": [' title="a &amp; b &lt; c &quot;q&quot;"', " alt='&#65;&nbsp;'"],
     "gtval": [' title="a > b"', " on='a>b'"],
-    "nsprefix": [' xml:lang="en" xmlns:foo="urn:foo" foo:bar="1"', ' xmlns="http://www.w3.org/1999/xhtml"'],
+    "nsprefix": [' xml:lang="en" xmlns:foo="urn:foo" foo:bar="1"', ' xmlns="http://www.w3.org/1999/xhtml"',
+                 ' data-x="1" data-xml-lang="en" data-xmlns-x="u"', ' xmlns:og="urn:og" data-og-title="t" data-foo-bar="b" og:t="1"',
+                 ' v-bind:id="i" @click="go" :key="k"'],
 }
+# configurations under which a statement-free document still renders to itself (they concern statements, comments'
+# interpolation, error reporting and attribute classes only)
+OPTSETS = [{}, {}, {"enable_data_attributes": True}, {"enable_comment_interpolation": False}, {"strict": False},
+           {"enable_data_attributes": True, "strict": False, "boolean_attributes": {"hidden", "checked"}}]
 
 
 def fill_doc(rec, rnd):
@@ -412,10 +418,11 @@ def _docs_chunk(recs, fills, seed):
             body = fill_doc(rec, rnd)
             src = ('<?xml version="1.0" encoding="utf-8"?>\n' + body) if rec["xml"] else body
             want = src if rec["xml"] else norm(src)
+            opts = rnd.choice(OPTSETS)
             for as_bytes in (False, True):
                 n += 1
                 try:
-                    got = PageTemplate(src.encode("utf-8") if as_bytes else src)()
+                    got = PageTemplate(src.encode("utf-8") if as_bytes else src, **opts)()
                 except Exception as e:
                     # a statement-free document that is rejected as a template error is outside the property
                     if isinstance(e, TemplateError):
@@ -423,8 +430,8 @@ def _docs_chunk(recs, fills, seed):
                         continue
                     got = "EXC %s: %s" % (type(e).__name__, e)
                 if got != want:
-                    viol.append(("statement-free document does not render to itself (%s, xml=%s)\n  source: %r\n  output: %r" % (
-                        "bytes" if as_bytes else "str", rec["xml"], src, got), dict(kind="verbatim", source=src, output=got)))
+                    viol.append(("statement-free document does not render to itself (%s, xml=%s, options %s)\n  source: %r\n  output: %r" % (
+                        "bytes" if as_bytes else "str", rec["xml"], sorted(opts), src, got), dict(kind="verbatim", source=src, output=got)))
             # parser field fidelity: start/end tag fields concatenate back to the token
             for tok in iter_xml(src):
                 if identify(tok) in ("start_tag", "empty_tag", "end_tag"):
